@@ -208,6 +208,9 @@ def main():
                 continue
             if not hash_ok:
                 continue
+            # two spellings of one hint (Union[X] is X) would collapse into one dictionary key
+            if len({eval(k, hints.env()) for k in mapping}) < len(mapping):
+                continue
             hand = hints.rebuild(node, lambda n: mapping.get(n.src))
             try:
                 hand.hint()
